@@ -275,8 +275,18 @@ def run(ctx):
 
 MANIFEST = {
     "category": "proof",
-    "technique": "Coq invariants over all event interleavings of the resource model, for any join-semilattice payload "
-                 "+ differential correspondence against real NewCRDT instances on loopback + implementation-side oracle",
-    "text": "see notes/C13.md",
-    "level_note": "see notes/C13.md",
+    "technique": "Coq invariants over all event interleavings of the resource model, for any join-semilattice payload (Section hypotheses, "
+                 "instantiated with the GCounter of C12) + differential correspondence against real NewCRDT instances on loopback "
+                 "(ticks and snapshots through verif hooks, ReceiveValue over net/rpc) + implementation-side oracle",
+    "text": ("Theorems in coq/Properties/C13.v, closed under the global context, for every list of events write/commit/abort/tick(any subset of "
+             "answering peers)/external ReceiveValue/merge step on any number of nodes: inflight_never_broadcast (every payload and reply is below "
+             "the committed/injected states), aborted_disappears + abort_restores, received_never_lost (everything received stays covered by value "
+             "and queue, also after an abort), owed_after_commit + commit_sets_owed (count 0 only if every other peer received a state above the "
+             "last commit; broadcasts reaching all peers), eventual_delivery (bounded-round quiescent convergence in a full mesh) and its GCounter "
+             "instance gcounter_resource_converges (all replicas read the same number). The theorems are about crdt.go after two fix: commits "
+             "(merge into oldValue during a section; owed count set at Commit); on the pinned code the check reports received-state-lost, "
+             "owed-broadcast-consumed and no-convergence from the corpus seeds."),
+    "level_note": ("Trusted: Coq kernel; the hand-written model (tie = differential testing on 150 quick / 3000 thorough schedules with eager merging: "
+                   "the merger goroutine cannot be held back, the theorems cover any merge timing); a broadcast round is atomic in the model (a Commit "
+                   "landing inside a round is not modelled); net/rpc, gob, goroutines, mutexes as specified; real-time (ticker, timeouts) not modelled."),
 }
